@@ -21,7 +21,7 @@ BUILT = {
          "DESIGN.md §4 C13"),
  "C06": ("E4 complete product enumeration (CLDR universe) + E6 exhaustive schedule exploration (shuttle DFS) of concurrent callers",
          "complete enumeration of all CLDR entries and of the whole L x S x R subtag universe, run on the real lookup, compared with a dictionary reference; plus stateless model checking of thread interleavings: shuttle's DFS scheduler enumerates every schedule of 2- and 3-thread bodies over a copy of the library whose std::sync/thread/thread_local tokens are rewritten to shuttle's",
-         "All 8218 CLDR entries and every (language, script, region) triple of the universe of subtags occurring in likelySubtags.json (plus absent and unknown representatives, about 3.1e8 triples) go through likelysubtags::maximize and are compared with a dictionary reference built from the JSON text; the in-place API is compared on a sub-universe. The space is finite and enumerated completely in both tiers. Concurrent callers: for all ordered pairs (and triples of the first five) of 8-16 operations of the family, every schedule of {warm-up; T1: a || T2: b [|| T3: c]; join; a; b} is enumerated by shuttle's DFS scheduler on a rewritten copy of the two -impl crates (every atomic / lock / thread-local access is a scheduling point); each result must equal the sequential one, which in turn must equal the real library's.",
+         "All 8218 CLDR entries and every (language, script, region) triple of the universe of subtags occurring in likelySubtags.json (plus absent and unknown representatives, about 3.1e8 triples) go through likelysubtags::maximize and are compared with a dictionary reference built from the JSON text; the LanguageIdentifier method is compared with the free function on every triple, with variants and extensions on a sub-universe. Every 2-3 letter language, 4-letter script and 2-letter / 3-digit region that the data do not know must behave like the unknown representative (complete subtag domains); every ordered pair of the 8218 keys is run as a two-call history on one thread (state kept between calls). The spaces are finite and enumerated completely. Concurrent callers: for all ordered pairs (and triples of the first five) of 8-16 operations of the family, every schedule of {warm-up; T1: a || T2: b [|| T3: c]; join; a; b} is enumerated by shuttle's DFS scheduler on a rewritten copy of the two -impl crates (every atomic / lock / thread-local access is a scheduling point); each result must equal the sequential one, which in turn must equal the real library's.",
          "Trusted: data/likelySubtags.json as the CLDR source; unknown subtags of one kind behave alike (binary-search miss).",
          "DESIGN.md §4 C06"),
  "C07": ("E4 complete product enumeration (CLDR universe) + E6 exhaustive schedule exploration (shuttle DFS) of concurrent callers",
@@ -31,7 +31,7 @@ BUILT = {
          "DESIGN.md §4 C07"),
  "C08": ("E4 complete product enumeration (CLDR universe) + E6 exhaustive schedule exploration (shuttle DFS) of concurrent callers",
          "complete enumeration of the L x S x R universe, algebraic laws plus dictionary reference for the chosen form, run on the real minimize; plus stateless model checking of thread interleavings: shuttle's DFS scheduler enumerates every schedule of 2- and 3-thread bodies over a copy of the library whose std::sync/thread/thread_local tokens are rewritten to shuttle's",
-         "Every triple of the universe is minimised; meaning preservation, subtag containment, no-lengthening, first-of-three choice, min(max(x)) = min(x) at return level, idempotence and false => unchanged are evaluated, and the chosen form is compared with the reference three-trial rule over the dictionary; variants/extensions on a sub-universe. Concurrent callers: for all ordered pairs (and triples of the first five) of 8-16 operations of the family, every schedule of {warm-up; T1: a || T2: b [|| T3: c]; join; a; b} is enumerated by shuttle's DFS scheduler on a rewritten copy of the two -impl crates (every atomic / lock / thread-local access is a scheduling point); each result must equal the sequential one, which in turn must equal the real library's.",
+         "Every triple of the universe is minimised; meaning preservation, subtag containment, no-lengthening, first-of-three choice, min(max(x)) = min(x) at return level, idempotence and false => unchanged are evaluated, and the chosen form is compared with the reference three-trial rule over the dictionary; method vs free function on every triple; variants/extensions (incl. raw-built variant storage) on a sub-universe; complete subtag domains against the unknown representative; two-call histories over keys and values (neighbourhoods in the quick tier, all ordered pairs in the thorough tier). Concurrent callers: for all ordered pairs (and triples of the first five) of 8-16 operations of the family, every schedule of {warm-up; T1: a || T2: b [|| T3: c]; join; a; b} is enumerated by shuttle's DFS scheduler on a rewritten copy of the two -impl crates (every atomic / lock / thread-local access is a scheduling point); each result must equal the sequential one, which in turn must equal the real library's.",
          "C08's law min(max(x)) = min(x) is read at the level of the function result (DESIGN §6.1).",
          "DESIGN.md §4 C08"),
  "C09": ("E1 token tree x transformation group + E2 skeleton group permutations",
@@ -46,7 +46,7 @@ BUILT = {
          "DESIGN.md §4 C11"),
  "C14": ("E4 complete product enumeration (CLDR layout locales, universe) in two builds + E6 exhaustive schedule exploration (shuttle DFS) of concurrent callers",
          "complete enumeration of all 710 CLDR layout locales and of the L x S x R universe in builds with and without likelysubtags, compared with a model derived from the layout JSON; plus stateless model checking of thread interleavings: shuttle's DFS scheduler enumerates every schedule of 2- and 3-thread bodies over a copy of the library whose std::sync/thread/thread_local tokens are rewritten to shuttle's",
-         "All 710 locales under data/cldr-misc-full/main and all universe triples are run through character_direction in the likelysubtags build and in the feature-less build (a second binary), against directions derived from the layout JSON files. Concurrent callers: for all ordered pairs (and triples of the first five) of 8-16 operations of the family, every schedule of {warm-up; T1: a || T2: b [|| T3: c]; join; a; b} is enumerated by shuttle's DFS scheduler on a rewritten copy of the two -impl crates (every atomic / lock / thread-local access is a scheduling point); each result must equal the sequential one, which in turn must equal the real library's.",
+         "All 710 locales under data/cldr-misc-full/main and all universe triples are run through character_direction in the likelysubtags build and in the feature-less build (a second binary), against directions derived from the layout JSON files; every ordered pair of the 710 locales is run as a two-call history on one thread. Concurrent callers: for all ordered pairs (and triples of the first five) of 8-16 operations of the family, every schedule of {warm-up; T1: a || T2: b [|| T3: c]; join; a; b} is enumerated by shuttle's DFS scheduler on a rewritten copy of the two -impl crates (every atomic / lock / thread-local access is a scheduling point); each result must equal the sequential one, which in turn must equal the real library's.",
          "Trusted: the layout.json files; the base build is a separate binary of the same checker source.",
          "DESIGN.md §4 C14"),
  "C15": ("E4 byte-string products + substitution neighbourhoods",
